@@ -57,6 +57,7 @@ type World struct {
 	untagged   []*rpcState
 	capLifted    bool
 	mutexBlocked int
+	timers       []time.Time
 	stacksAtHang string
 }
 
@@ -403,25 +404,51 @@ func (w *World) advance(d time.Duration) {
 	w.settle()
 }
 
-// sleep advances virtual time; with goroutines waiting on mutexes time could
-// not advance, so the capacity bound is lifted first in that case.
+// sleep advances virtual time by d. The fake clock only moves while every
+// goroutine of the bubble is durably blocked, and a goroutine waiting for a
+// mutex is not: if a timer fired during one long sleep and its goroutine then
+// waited for a mutex held by a parked sender, the clock (and the root with it)
+// would be stuck. So (1) bounded carriers are unbounded first and nested
+// tunnels have their outer frames delivered, which releases parked senders
+// that hold the send mutex, and (2) the root never sleeps past a timer it
+// knows of: it wakes at every known deadline, settles, and re-checks.
 func (w *World) sleep(d time.Duration) {
-	if w.polling() {
-		w.liftCapacity()
+	target := time.Now().Add(d)
+	for time.Now().Before(target) {
 		if w.polling() {
+			w.liftCapacity()
 			w.pollQuiescent()
-			if _, mb := w.scanNow(); mb > 0 {
+			if w.c.Cfg.Dir == "nested" || w.c.Cfg.Dir == "nestedrev" {
 				w.drainDeliveries()
-				w.scanNow()
 			}
-			if w.mutexBlocked > 0 {
-				w.tr.Notes = append(w.tr.Notes, "virtual time not advanced: goroutines waiting on mutexes")
+			if _, mb := w.scanNow(); mb > 0 {
+				w.tr.Notes = append(w.tr.Notes, "virtual time not advanced further: goroutines waiting on mutexes")
 				w.tr.label("advance_skipped")
 				return
 			}
 		}
+		next := target
+		now := time.Now()
+		w.mu.Lock()
+		for _, t := range w.timers {
+			if t.After(now) && t.Before(next) {
+				next = t
+			}
+		}
+		w.mu.Unlock()
+		time.Sleep(next.Sub(now))
+		if w.polling() {
+			w.pollQuiescent()
+		} else {
+			synctest.Wait()
+		}
 	}
-	time.Sleep(d)
+}
+
+func (w *World) addTimer(t time.Time) {
+	w.mu.Lock()
+	w.timers = append(w.timers, t)
+	w.mu.Unlock()
 }
 
 // ---------------------------------------------------------------------------
@@ -634,6 +661,7 @@ func (w *World) openTunnel(spec TunnelSpec, fatal bool) bool {
 	for _, ev := range w.c.Events {
 		if ev.Kind == "expire_open" && ev.Target == idx {
 			t.expireAt = time.Now().Add(10 * time.Minute)
+			w.addTimer(t.expireAt)
 			t.openCtx, t.cancel = context.WithDeadline(ctx, t.expireAt)
 		}
 	}
@@ -1076,6 +1104,7 @@ func (w *World) callCtx(r *rpcState) (context.Context, []grpc.CallOption) {
 	sp := r.spec
 	ctx := context.Background()
 	if sp.Timeout > 0 {
+		w.addTimer(time.Now().Add(time.Duration(sp.Timeout) * time.Millisecond))
 		ctx, r.cancel = context.WithTimeout(ctx, time.Duration(sp.Timeout)*time.Millisecond)
 	} else {
 		ctx, r.cancel = context.WithCancel(ctx)
